@@ -251,9 +251,10 @@ func (e *emitter) stringValue(key string) (string, string) {
 			s = "010.001.000.009"
 		}
 	case "downlink_iface", "uplink_iface":
-		s = []string{"enp0s8", "enp0s9", "eth0", "lo", "0", "veth-a.1"}[r.Intn(6)]
+		s = []string{"enp0s8", "enp0s9", "eth0", "lo", "0", "veth-a.1", "veth$dl", "br-${HOME}"}[r.Intn(8)]
 	default:
-		s = []string{"open5gs", "free5gc", "0", "00", "gNB #1", "a: b", "it's", "007"}[r.Intn(8)]
+		// names with characters that mean something to a shell, a template engine or printf: they are just text here
+		s = []string{"open5gs", "free5gc", "0", "00", "gNB #1", "a: b", "it's", "007", "lab$A-gnb${1}", "$HOME/gnb", "100%s", "{{name}}", "a\\tb", " gnb 7 "}[r.Intn(14)]
 	}
 	switch r.Intn(5) {
 	case 0:
